@@ -749,6 +749,14 @@ def setbool_cases():
     for l in ('-', 'x61,-', '-,x61', 'x61,x6262,-', 'x61,-,x6262', 'x61,x6262,x63,x64,-'):
         n = len(l.split(','))
         res.append(Case('hist DX 0 strs:%d:%s;size:0;arr;strs:%d:%s;del:1' % (n, l, n, l), {'tags': ['directed', 'string-array-null-entry']}))
+    # an item replaced BY ITSELF (a caller that "normalises" members and hands back the existing one): a no-op that returns true
+    three = 'arr;null;add:0:1;true;add:0:2;false;add:0:3'
+    for h in (1, 2, 3):
+        res.append(Case('hist DX 0 %s;repp:0:%d:%d;size:0;each:0;repa:0:%d:%d;each:0;del:0' % (three, h, h, h - 1, h), {'tags': ['directed', 'self-replacement']}))
+    res.append(Case('hist DX 0 arr;null;add:0:1;repp:0:1:1;repa:0:0:1;size:0;add:0:-;del:0', {'tags': ['directed', 'self-replacement']}))
+    for rep in ('repo', 'repocs'):
+        res.append(Case('hist DX 0 obj;null;addo:0:x6b31:1;true;addo:0:x6b32:2;false;addcs:0:x6b33:3;%s:0:x6b32:2;each:0;%s:0:x6b31:1;%s:0:x6b33:3;each:0;geto:0:x6b33;del:0'
+                        % (rep, rep, rep), {'tags': ['directed', 'self-replacement']}))
     return res
 
 def directed_key_cases():
